@@ -10,6 +10,7 @@ import (
 	"testing"
 	"testing/synctest"
 	"time"
+	"verif/sim/vpool"
 
 	gnet "github.com/panjf2000/gnet/v2"
 	"golang.org/x/sys/unix"
@@ -32,6 +33,7 @@ const (
 
 type wEntry struct {
 	id, n int
+	raw   []byte // the exact bytes when they are not the generated payload of operation id (an echo)
 }
 
 // connState is what the harness knows about one connection object.
@@ -349,6 +351,7 @@ func (w *World) run() {
 		cfg.MaxSteps = 60000
 	}
 	w.probes["global-resets"] = vsched.ResetGlobals()
+	vpool.ResetDoublePuts()
 	s := vsched.New(cfg)
 	defer s.Close()
 	s.Record = true
@@ -985,6 +988,13 @@ func (w *World) finish() {
 		w.violate("HARNESS", "step-cap", "step cap reached in phase %d", w.ph)
 	}
 	w.simNanos = w.s.SimNanos()
+	if vpool.DoublePuts > 0 {
+		// an object that sits in a pool twice will be handed to two holders
+		w.violate("C12", "pool-double-put", "%s (%d time(s) in this run)", vpool.DoublePutMsg, vpool.DoublePuts)
+		if len(w.p.Faults) > 0 {
+			w.violate("C18", "C12/pool-double-put", "with fault %s: %s", faultDesc(w.p.Faults), vpool.DoublePutMsg)
+		}
+	}
 	w.finalOracles()
 	w.lbOracle()
 	w.udpFinal()
